@@ -172,6 +172,21 @@ def run(ctx):
         m = re.search(r'<iconset theme="([^"]*)">', r["ui"])
         if m:
             aterms.append(("(%s)%%N" % C.coq_list([str(ord(c)) for c in s]), "(%s)%%N" % C.coq_list([str(ord(c)) for c in m.group(1)])))
+    # a string XML cannot carry must be diagnosed in EVERY place, one place per document (in the all-places document one diagnosed place hides the others)
+    ONE = ["  windowIcon.name: %s\n", "  QLabel { text: %s }\n", "  QComboBox { model: [%s, \"z\"] }\n", "  QLabel { pixmap: %s }\n", "  QLabel { text: qsTr(%s) }\n",
+           "  QTextBrowser { searchPaths: [%s, \"z\"] }\n", "  QToolButton { icon.name: %s }\n", "  QToolButton { shortcut: %s }\n", "  QToolButton { icon.normalOff: %s }\n",
+           "  QToolButton { icon.disabledOn: %s }\n", "  QTabWidget { QWidget { QTabWidget.title: %s } }\n", "  QTabWidget { QWidget { QTabWidget.toolTip: %s } }\n",
+           "  QTabWidget { QWidget { QTabWidget.icon.name: %s } }\n", "  QTabWidget { QWidget { QTabWidget.icon.normalOn: %s } }\n", "  windowIcon.selectedOff: %s\n"]
+    bads = [x for x in strs if x and not all(is_xml_char(c) for c in x)]
+    bads = bads[:400 if thorough else 40]
+    odocs = [("import qmluic.QtWidgets\nQWidget {\n" + t % prog.qml_str(x) + "}\n", x, t) for x in bads for t in ONE]
+    ores = qml.run_docs(vh, [d for d, _, _ in odocs])
+    for (d, x, t), r in zip(odocs, ores):
+        ctx.count(("nonxml-place", x, t), True)
+        if isinstance(r, dict) and r.get("ui") is not None and not any(y["kind"] == "error" for y in r["diags"]):
+            ctx.violation("a string with a character XML 1.0 cannot carry (%r) is written without diagnostic by %s" % ([hex(ord(c)) for c in x if not is_xml_char(c)][:3], t.strip()),
+                          {"case": x, "qml": d, "impl_output": r.get("ui"), "theorem_or_correspondence": "C09_non_xml_char_ill_formed / S"})
+    ctx.coverage["non_xml_strings_x_places"] = len(odocs)
     if ctx.model_ok and terms:
         bad = C.coq_eval_mismatches("c09k", HEADER, terms, "nl_eqb", "escape_text", "list N * list N", shard_size=400)
         ctx.coverage["disagreements_model"] = len(bad)
